@@ -922,7 +922,7 @@ func (tkn *Tokenizer) scanString(delim uint16, typ int) (int, []byte) {
 			}
 			// specific case for postgresql where binary string encoded as hex with \x prefix then we should skip general
 			// mysql behaviour and escape logic
-			if index == 0 && (tkn.lastChar == 'x' || tkn.lastChar == 'X') {
+			if buffer.Len() == 0 && (tkn.lastChar == 'x' || tkn.lastChar == 'X') {
 				buffer.WriteByte(byte(ch))
 				buffer.WriteByte(byte(tkn.lastChar))
 				tkn.next()
